@@ -98,48 +98,80 @@ def readExtensions (fh : File) (endOff : Nat) : Nat → Nat → List Ext → Exc
           readExtensions fh endOff fuel (off2 + (len + 7) / 8 * 8) (⟨magic, len, data⟩ :: acc)
     else .ok acc.reverse
 
-/-- `QCow2.__init__`; `dataFile`/`backing` are what the caller passed (`backingGiven` says
-    whether a backing argument was supplied, `allowNoBacking` = the ALLOW_NO_BACKING_FILE opt-out) -/
+/-- the parsed `QCowHeader` (`c_qcow2.QCowHeader(fh)` reads the whole structure first) -/
+structure Hdr where
+  magic : Nat
+  version : Nat
+  bfOff : Nat
+  bfSize : Nat
+  clusterBits : Nat
+  size : Nat
+  crypt : Nat
+  l1Size : Nat
+  l1Offset : Nat
+  nbSnapshots : Nat
+  snapshotsOffset : Nat
+  incompatRaw : Nat
+  headerLengthRaw : Nat
+  ctField : Nat
+
+def readHdr (fh : File) : Except Err Hdr := do
+  let z := QCowHeader.size
+  pure { magic := ← fh.field 0 z QCowHeader.magic
+         version := ← fh.field 0 z QCowHeader.version
+         bfOff := ← fh.field 0 z QCowHeader.backing_file_offset
+         bfSize := ← fh.field 0 z QCowHeader.backing_file_size
+         clusterBits := ← fh.field 0 z QCowHeader.cluster_bits
+         size := ← fh.field 0 z QCowHeader.size_field
+         crypt := ← fh.field 0 z QCowHeader.crypt_method
+         l1Size := ← fh.field 0 z QCowHeader.l1_size
+         l1Offset := ← fh.field 0 z QCowHeader.l1_table_offset
+         nbSnapshots := ← fh.field 0 z QCowHeader.nb_snapshots
+         snapshotsOffset := ← fh.field 0 z QCowHeader.snapshots_offset
+         incompatRaw := ← fh.field 0 z QCowHeader.incompatible_features
+         headerLengthRaw := ← fh.field 0 z QCowHeader.header_length
+         ctField := ← fh.field 0 z QCowHeader.compression_type }
+
+/-- version-2 headers end after `snapshots_offset`: the later fields take fixed values -/
+def Hdr.incompat (h : Hdr) : Nat := if h.version = 2 then 0 else h.incompatRaw
+def Hdr.headerLength (h : Hdr) : Nat := if h.version = 2 then 72 else h.headerLengthRaw
+def Hdr.sub (h : Hdr) : Bool := (h.incompat / QCOW2_INCOMPAT_EXTL2) % 2 = 1
+def Hdr.compressionType (h : Hdr) : Nat := if h.headerLength > 104 then h.ctField else QCOW2_COMPRESSION_TYPE_ZLIB
+def Hdr.scPer (h : Hdr) : Nat := if h.sub then QCOW_EXTL2_SUBCLUSTERS_PER_CLUSTER else 1
+
+/-- the header gates of `QCow2.__init__`, in the code's order; `none` = all passed -/
+def Hdr.gate (h : Hdr) : Option Err :=
+  if h.magic ≠ QCOW2_MAGIC then some .format
+  else if h.version < 2 ∨ h.version > 3 then some .format
+  else if h.clusterBits < MIN_CLUSTER_BITS ∨ h.clusterBits > MAX_CLUSTER_BITS then some .format
+  else if h.compressionType = QCOW2_COMPRESSION_TYPE_ZSTD ∧ HAS_ZSTD = 0 then some .format
+  else if 2 ^ h.clusterBits / h.scPer < 2 ^ MIN_CLUSTER_BITS then some .format
+  else if h.crypt ≠ 0 then some .format
+  else if h.incompat / (QCOW2_INCOMPAT_MASK + 1) ≠ 0 then some .format        -- unknown incompatible feature bits
+  else none
+
+/-- `QCow2.__init__`; `dataFile`/`backing` are what the caller passed (`backing = none` when no
+    backing argument was supplied, `allowNoBacking` = the ALLOW_NO_BACKING_FILE opt-out) -/
 def «open» (fh : File) (dataFile : Option File) (backing : Option Reader) (allowNoBacking : Bool)
     (inflate : Bytes → Nat → Except Err Bytes) : Except Err QCow2 := do
-  let z := QCowHeader.size
-  let magic ← fh.field 0 z QCowHeader.magic
-  if magic ≠ QCOW2_MAGIC then throw .format
-  let version ← fh.field 0 z QCowHeader.version
-  if version < 2 ∨ version > 3 then throw .format
-  let clusterBits ← fh.field 0 z QCowHeader.cluster_bits
-  if clusterBits < MIN_CLUSTER_BITS ∨ clusterBits > MAX_CLUSTER_BITS then throw .format
-  let v3 := version ≠ 2
-  let incompat ← if v3 then fh.field 0 z QCowHeader.incompatible_features else pure 0
-  let headerLength ← if v3 then fh.field 0 z QCowHeader.header_length else pure 72
-  let sub := (incompat / QCOW2_INCOMPAT_EXTL2) % 2 = 1
-  let ctField ← fh.field 0 z QCowHeader.compression_type
-  let compressionType := if headerLength > 104 then ctField else QCOW2_COMPRESSION_TYPE_ZLIB
-  if compressionType = QCOW2_COMPRESSION_TYPE_ZSTD ∧ HAS_ZSTD = 0 then throw .format
-  let scPer := if sub then QCOW_EXTL2_SUBCLUSTERS_PER_CLUSTER else 1
-  if 2 ^ clusterBits / scPer < 2 ^ MIN_CLUSTER_BITS then throw .format
-  let crypt ← fh.field 0 z QCowHeader.crypt_method
-  if crypt ≠ 0 then throw .format
-  -- unknown incompatible feature bits
-  if incompat / (QCOW2_INCOMPAT_MASK + 1) ≠ 0 then throw .format
-  let bfOff ← fh.field 0 z QCowHeader.backing_file_offset
-  let bfSize ← fh.field 0 z QCowHeader.backing_file_size
-  let endOff := if bfOff ≠ 0 then bfOff else 2 ^ clusterBits
-  let exts ← readExtensions fh endOff (endOff / 8 + 2) headerLength []
-  let needData := (incompat / QCOW2_INCOMPAT_DATA_FILE) % 2 = 1
-  let df ← (if needData then (match dataFile with | some d => .ok d | none => .error .format) else .ok fh)
-  let (bname, bk) ← (if bfOff ≠ 0 then
-      (if backing.isNone ∧ ¬ allowNoBacking then .error .format
-       else .ok (some (fh.read bfOff bfSize), if allowNoBacking then none else backing))
-    else .ok (none, none))
-  let size ← fh.field 0 z QCowHeader.size_field
-  let l1Size ← fh.field 0 z QCowHeader.l1_size
-  let l1Offset ← fh.field 0 z QCowHeader.l1_table_offset
-  let nbSnapshots ← fh.field 0 z QCowHeader.nb_snapshots
-  let snapshotsOffset ← fh.field 0 z QCowHeader.snapshots_offset
-  let l1 := (fh.readExact l1Offset (8 * l1Size)).map (fun raw => (decodeBE64 l1Size raw).toArray)
-  .ok { fh, dataFile := df, hasDataFile := needData, backing := bk, version, clusterBits, size, l1Size, l1Offset, sub,
-        compressionType, l1, inflate, backingName := bname, exts, nbSnapshots, snapshotsOffset }
+  let h ← readHdr fh
+  match h.gate with
+  | some e => .error e
+  | none =>
+    let endOff := if h.bfOff ≠ 0 then h.bfOff else 2 ^ h.clusterBits
+    let exts ← readExtensions fh endOff (endOff / 8 + 2) h.headerLength []
+    let needData := (h.incompat / QCOW2_INCOMPAT_DATA_FILE) % 2 = 1
+    -- data-file gate
+    let df ← (if needData then (match dataFile with | some d => .ok d | none => .error .format) else .ok fh)
+    -- backing-file gate
+    let (bname, bk) ← (if h.bfOff ≠ 0 then
+        (if backing.isNone ∧ ¬ allowNoBacking then .error .format
+         else .ok (some (fh.read h.bfOff h.bfSize), if allowNoBacking then none else backing))
+      else .ok (none, none))
+    let l1 := (fh.readExact h.l1Offset (8 * h.l1Size)).map (fun raw => (decodeBE64 h.l1Size raw).toArray)
+    .ok { fh, dataFile := df, hasDataFile := needData, backing := bk, version := h.version, clusterBits := h.clusterBits,
+          size := h.size, l1Size := h.l1Size, l1Offset := h.l1Offset, sub := h.sub, compressionType := h.compressionType,
+          l1, inflate, backingName := bname, exts, nbSnapshots := h.nbSnapshots, snapshotsOffset := h.snapshotsOffset }
 
 /-- `QCow2.snapshots` (one entry) -/
 def readSnapshot (fh : File) (offset : Nat) : Except Err Snap := do
